@@ -17,8 +17,8 @@ RULE = (
     "Pumping families prefix + unit^n + suffix for ~100 units (blanks, tabs, "
     "newlines, each punctuation mark, '. ', ', ', ' and ', ' & ', ' - ', "
     "' thru ', ' to ', 'of the ', aliquot/lot/section/Twp-Rge tokens, letters "
-    "of township/principal/meridian, OCR look-alikes, symbols) x 11 prefixes "
-    "x 7 suffixes, pumped to 250 characters (quick: size 250 for every "
+    "of township/principal/meridian, OCR look-alikes, symbols) x 13 prefixes "
+    "x 8 suffixes, pumped to 250 characters (quick: size 250 for every "
     "triple and the 62/125 ladder for a rotating third; thorough: the whole "
     "ladder plus 400/600 report-only); structural repetition (k lines each "
     "repeating a Twp/Rge, k sections, k lots, k aliquots) and random PLSS "
@@ -36,7 +36,7 @@ ASSUMPTIONS = [
     "or heavily shared machine widens the budget, never narrows it.",
 ]
 MIN_NONTRIVIAL = {'quick': 5000, 'thorough': 30000}
-REQUIRED_MONITORS = ['timer:PLSSDesc', 'calibration']
+REQUIRED_MONITORS = ['timer:PLSSDesc', 'timer:Tract', 'calibration']
 SHARD_TIMEOUT = {'quick': 900, 'thorough': 5400}
 
 UNITS = [
@@ -58,12 +58,19 @@ UNITS = [
     # abbreviated conjunctions with a period, glued conjunctions
     ' thru. ', ' through. ', 'thru.', ' to. ', ' and. ', '&', ' &', ', and ',
     ' , ', ';;', '::', '.,', ',.', ' / ', '/ ',
+    # digit groups (acreages, references)
+    '123,', '1,', '12.', '123 ', '0.', '9',
 ]
 PREFIXES = ['', 'T154N-R97W ', 'T154N-R97W Sec 14', 'T154N-R97W Sec 14: ',
             'T154N-R97W Sec 14: Lot 1', 'T154N-R97W Sec 14: N/2', 'Sec 14',
             'NE/4 of Sec 14', 'T154N-R97W Sec 14: NE/4 of the',
-            'Township 154 North', 'T154N-R97']
-SUFFIXES = ['', ' Sec 15: W/2', 'X', ' T154N-R97W', '1', ' P.M.', ' NE/4']
+            'Township 154 North', 'T154N-R97',
+            'T154N-R97W Sec 14: Lot 1 (', 'T154N-R97W Sec 14: Lot 1 [3']
+SUFFIXES = ['', ' Sec 15: W/2', 'X', ' T154N-R97W', '1', ' P.M.', ' NE/4',
+            '-A) NE/4']
+TRACT_PREFIXES = ['', 'NE/4', 'N/2 of', 'Lot 1', 'Lots 1 - 3,', 'N½NE¼',
+                  'Northeast Quarter', 'NE', 'ALL', 'Lot 1 (', 'Lot 1 [3']
+TRACT_SUFFIXES = ['', 'x', ' NE/4', ' Lot 2', '1', ' of the SW/4', '-A)']
 LADDER = (62, 125, 250)
 # A shard that has confirmed this many violations stops measuring (each
 # costs three cut-off runs); the verdict is already decided.
@@ -132,12 +139,22 @@ class Sampler:
         return self.counts.most_common(3)
 
 
-def timed(pytrs, text, box):
+def parse_target(pytrs, text, target):
+    if target == 'tract':
+        # a tract description parsed directly (no description-level
+        # preprocessing in front of it)
+        pytrs.Tract(text, parse_qq=True)
+        pytrs.Tract(text, parse_qq=True, config='clean_qq')
+    else:
+        pytrs.PLSSDesc(text, parse_qq=True)
+
+
+def timed(pytrs, text, box, target='plss'):
     """CPU seconds of one parse; ``box`` if it had to be cut off."""
     t0 = time.process_time()
     try:
         with cpu_timebox(box):
-            pytrs.PLSSDesc(text, parse_qq=True)
+            parse_target(pytrs, text, target)
     except CaseTimeout:
         return box, True
     except Exception:
@@ -147,12 +164,14 @@ def timed(pytrs, text, box):
 
 
 def judge(ctx, pytrs, case, text, budget, decide=True):
-    shape = case.get('family', 'pump')
+    target = case.get('target', 'plss')
+    shape = case.get('family', 'pump') + ('/tract' if target == 'tract' else '')
     nontrivial = bool(case.get('p') or case.get('s')) or shape != 'pump'
-    ctx.case(text, nontrivial and decide, shape=f"{shape}|len<={_bucket(len(text))}",
+    ctx.case([text, target], nontrivial and decide,
+             shape=f"{shape}|len<={_bucket(len(text))}",
              sample={'text': text, 'len': len(text)})
-    ctx.hit('timer:PLSSDesc')
-    t, cut = timed(pytrs, text, budget * 3)
+    ctx.hit('timer:Tract' if target == 'tract' else 'timer:PLSSDesc')
+    t, cut = timed(pytrs, text, budget * 3, target)
     rec = ctx.extra.setdefault('times', [])
     if t > budget * 0.1 or not decide:
         rec.append([round(t, 4), len(text), case])
@@ -160,14 +179,14 @@ def judge(ctx, pytrs, case, text, budget, decide=True):
         return t
     # Confirmation: two more runs, the minimum decides.
     ctx.hit('confirmation-rerun')
-    t2, _ = timed(pytrs, text, budget * 1.5)
-    t3, _ = timed(pytrs, text, budget * 1.5)
+    t2, _ = timed(pytrs, text, budget * 1.5, target)
+    t3, _ = timed(pytrs, text, budget * 1.5, target)
     tmin = min(t, t2, t3)
     if tmin <= budget:
         ctx.hist['over-budget-once-not-confirmed'] += 1
         return tmin
     ctx.extra['confirmed'] = ctx.extra.get('confirmed', 0) + 1
-    label = Sampler().run(lambda: pytrs.PLSSDesc(text, parse_qq=True),
+    label = Sampler().run(lambda: parse_target(pytrs, text, target),
                           budget * 1.5)
     mech = label[0][0] if label else '?'
     vcase = dict(case)
@@ -177,7 +196,7 @@ def judge(ctx, pytrs, case, text, budget, decide=True):
         f"{len(text)} characters took >= {tmin:.2f} s CPU (budget "
         f"{budget:.2f} s; three runs {t:.2f}/{t2:.2f}/{t3:.2f}"
         f"{', cut off' if cut else ''}); time is spent in {label}",
-        dedup=f"{mech}|{case.get('u')!r}|{case.get('p')!r}",
+        dedup=f"{target}|{mech}|{case.get('u')!r}|{case.get('p')!r}",
         mechanism=mech, seconds=round(tmin, 3), length=len(text))
     return tmin
 
@@ -242,6 +261,18 @@ def run_shard(shard, ctx):
                                 ctx, pytrs, case, _pump(p, u, s, size),
                                 budget * 4, decide=False)
                         _growth(ctx, (p, u, s), series)
+        # The same units pumped inside a tract description parsed directly.
+        for pi, p in enumerate(TRACT_PREFIXES):
+            for ui, u in enumerate(UNITS):
+                for si, s in enumerate(TRACT_SUFFIXES):
+                    k += 1
+                    if k % shard['parts'] != shard['part']:
+                        continue
+                    if ctx.extra.get('confirmed', 0) >= MAX_CONFIRMED_PER_SHARD:
+                        continue
+                    case = {'family': 'pump', 'target': 'tract', 'p': p,
+                            'u': u, 's': s, 'size': SIZE_BOUND}
+                    judge(ctx, pytrs, case, _pump(p, u, s, SIZE_BOUND), budget)
         return
     if fam == 'structural':
         for text, what in _structural():
